@@ -207,7 +207,17 @@ func (g *AbsGen) txnOp() M {
 	case 2:
 		return M{"fam": "chk", "verb": g.pick([]string{"set", "delete", "get"}), "node": g.pick(nodeNms), "chk": g.chk(g.pick(chkIds))}
 	case 3:
-		return M{"fam": "svc", "verb": g.pick([]string{"set", "delete", "get"}), "node": g.pick(nodeNms), "id": g.pick([]string{"w1", "w2"}), "name": "web"}
+		o := M{"fam": "svc", "verb": g.pick([]string{"set", "delete", "get", "cas", "cas"}), "node": g.pick(nodeNms), "id": g.pick([]string{"w1", "w2"}),
+			"name": g.pick([]string{"web", "web", "web2"})}
+		if o["verb"] == "cas" {
+			// supplied index: "must not exist", the instance's current modify index (read through the public API), or a stale one
+			cur := uint64(0)
+			if _, sv, _ := g.Store().NodeService(nil, o["node"].(string), o["id"].(string), nil, ""); sv != nil {
+				cur = sv.ModifyIndex
+			}
+			o["mi"] = float64([]uint64{0, cur, cur, cur + 1, 1}[g.R.Intn(5)])
+		}
+		return o
 	}
 	k := g.pick(WideKeys)
 	verbs := []string{"set", "cas", "delete", "delete-cas", "delete-tree", "lock", "unlock", "get", "get-tree", "get-or-empty",
